@@ -71,6 +71,15 @@ def gen_plan(ch: Chooser, tier: str) -> dict[str, Any]:
                                   'lifecycle': None})
         plan['actions'].append({'t': ch.choice([0.0, 0.0, 3.0]), 'do': 'start', 'op': 'op2'})
         plan['actions'].sort(key=lambda a: a['t'])
+    if len(plan['operators']) == 1 and ch.bool(0.25):
+        # a prefix of the operator's own that nobody else can recognise as Kopf's (no marker is written under 'kopf.*'):
+        # only the storage itself keeps its records out of the essence
+        op1['settings']['storage'] = {'progress': 'annotations', 'prefix': ch.choice(['kopf.dev', 'kopf.example.com']),
+                                      'v1': ch.bool(0.7)}
+    if len(plan['operators']) == 1 and ch.bool(0.06):
+        # a handler on the whole annotations stanza (a field path like any other)
+        op1['handlers'].append({'id': 'fwa', 'kind': 'field', 'opts': {'field': 'metadata.annotations'},
+                                'script': [{'do': 'ok', 'dur': 0.0}]})
     if ch.bool(0.35):
         # an object without any payload, labels or annotations: its essence is empty
         plan['objects'].append({'kind': 'widgets', 'body': {'metadata': {'name': 'bare'}}})
@@ -116,6 +125,19 @@ def _apply_diff(old: Any, diff: list[Any]) -> Any:
     return result
 
 
+WHOLE_ANNOTATIONS = 'whole-annotations-field-restores-system-and-foreign-annotations'
+
+
+def _sans_annotations(x: Any) -> Any:
+    if not isinstance(x, dict):
+        return x
+    y = copy.deepcopy(x)
+    (y.get('metadata') or {}).pop('annotations', None)
+    if 'metadata' in y and not y['metadata']:
+        del y['metadata']
+    return y
+
+
 def oracle(run: runner.Run, oc: Outcome) -> None:
     plan = run.plan
     snaps = common.snapshots(run)
@@ -130,6 +152,13 @@ def oracle(run: runner.Run, oc: Outcome) -> None:
             continue
         st = common.StorageRef(opspec)
         hspecs = common.handler_specs(run, opid)
+        wa = any(h.get('opts', {}).get('field') == 'metadata.annotations' for h in hspecs.values())
+
+        def _sig(sig: str, a: Any, b: Any) -> str:
+            # with a handler on the whole annotations stanza all annotations are put back into the essence
+            # (known finding): told apart by the difference being confined to the annotations
+            return WHOLE_ANNOTATIONS if wa and common.essence_eq(_sans_annotations(a), _sans_annotations(b)) else sig
+
         for (o, uid), lst in steps_all.items():
             if o != opid:
                 continue
@@ -139,7 +168,7 @@ def oracle(run: runner.Run, oc: Outcome) -> None:
                 if view is None or s.etype == 'DELETED':
                     continue
                 deleting = (view.get('metadata') or {}).get('deletionTimestamp') is not None
-                ess = common.ref_essence(view)
+                ess = common.ref_essence(view, own_prefix=st.prefix)
                 # (a) an update is declared exactly when the essence of the view differs from the base stored in it
                 # (the base was checked against the reference essence of its own view when it was stored: (b))
                 base_in_view = st.last_handled(view)
@@ -148,7 +177,7 @@ def oracle(run: runner.Run, oc: Outcome) -> None:
                         prev_rv = int(closing_view['metadata']['resourceVersion']) if closing_view is not None else 0
                         who = sorted({t.actor for t in run.transitions if t.uid == uid and t.after is not None
                                       and prev_rv < int(t.after['metadata']['resourceVersion']) <= int(s.rv)})
-                        oc.add('C04/self-triggered', 'update-without-essential-change',
+                        oc.add('C04/self-triggered', WHOLE_ANNOTATIONS if wa else 'update-without-essential-change',
                                f"{opid}: {uid}@{s.rv} was classified as an update although nothing essential differs from "
                                f"the state recorded as handled; writers since the last close: {who}", uid=uid, op=opid)
                     elif closing_view is not None:
@@ -156,11 +185,11 @@ def oracle(run: runner.Run, oc: Outcome) -> None:
                                    and int(closing_view['metadata']['resourceVersion']) <
                                    int(t.after['metadata']['resourceVersion']) <= int(s.rv)]
                         if any(common.is_operator_actor(run, t.actor) or
-                               common.essence_eq(common.ref_essence(t.before), common.ref_essence(t.after)) for t in between):
+                               common.essence_eq(common.ref_essence(t.before, own_prefix=st.prefix), common.ref_essence(t.after, own_prefix=st.prefix)) for t in between):
                             after_nonessential += 1
                 if s.reason == 'noop' and base_in_view is not None and not deleting:
                     if not common.essence_eq(base_in_view, ess):
-                        oc.add('C04/change-missed', 'noop-despite-essential-change',
+                        oc.add('C04/change-missed', _sig('noop-despite-essential-change', base_in_view, ess),
                                f"{opid}: {uid}@{s.rv} was classified as a no-op although its essence {ess!r} differs from the "
                                f"state recorded as handled {base_in_view!r}", uid=uid, op=opid)
                 # (c) exactness of old/new/diff
@@ -175,11 +204,11 @@ def oracle(run: runner.Run, oc: Outcome) -> None:
                     want_old = (_resolve(base, path) if path else base) if base is not None else None
                     if c.reason in ('update',) or c.hkind == 'field' and c.reason == 'update':
                         if not common.essence_eq(c.new, want_new):
-                            oc.add('C04/diff-inexact', 'new-is-not-the-essence',
+                            oc.add('C04/diff-inexact', _sig('new-is-not-the-essence', c.new, want_new) if not path else WHOLE_ANNOTATIONS if field == 'metadata.annotations' else 'new-is-not-the-essence',
                                    f"{opid}: handler {c.hid} on {uid}@{s.rv}: new={c.new!r} but the reference essence"
                                    f"{' at ' + field if field else ''} is {want_new!r}", uid=uid, hid=c.hid)
                         if base is not None and not common.essence_eq(c.old, want_old):
-                            oc.add('C04/diff-inexact', 'old-is-not-the-base',
+                            oc.add('C04/diff-inexact', _sig('old-is-not-the-base', c.old, want_old) if not path else WHOLE_ANNOTATIONS if field == 'metadata.annotations' else 'old-is-not-the-base',
                                    f"{opid}: handler {c.hid} on {uid}@{s.rv}: old={c.old!r} but the stored base"
                                    f"{' at ' + field if field else ''} is {want_old!r}", uid=uid, hid=c.hid)
                         applied = _apply_diff(c.old, c.diff or [])
@@ -198,7 +227,7 @@ def oracle(run: runner.Run, oc: Outcome) -> None:
                     lh_b, lh_a = st.last_handled(w.before), st.last_handled(w.after)
                     if lh_a is not None and lh_a != lh_b:
                         if not common.essence_eq(lh_a, ess):
-                            oc.add('C04/diffbase-not-essence', 'stored-base-differs',
+                            oc.add('C04/diffbase-not-essence', _sig('stored-base-differs', lh_a, ess),
                                    f"{opid}: the last-handled state stored for {uid} from the view @{s.rv} is {lh_a!r} but the "
                                    f"reference essence of that view is {ess!r}", uid=uid, op=opid)
                         closing_view = view
@@ -215,10 +244,10 @@ def oracle(run: runner.Run, oc: Outcome) -> None:
                 if obj['metadata'].get('deletionTimestamp') is not None or not has_cu:
                     continue
                 lh = st.last_handled(obj)
-                if not common.essence_eq(lh, common.ref_essence(obj)):
-                    oc.add('C04/change-missed', 'last-handled-stale-at-quiescence',
+                if not common.essence_eq(lh, common.ref_essence(obj, own_prefix=st.prefix)):
+                    oc.add('C04/change-missed', _sig('last-handled-stale-at-quiescence', lh, common.ref_essence(obj, own_prefix=st.prefix)),
                            f"{opid}: {obj['metadata']['name']}: last-handled {lh!r} differs from the final essence "
-                           f"{common.ref_essence(obj)!r}", op=opid, uid=obj['metadata']['uid'])
+                           f"{common.ref_essence(obj, own_prefix=st.prefix)!r}", op=opid, uid=obj['metadata']['uid'])
     if run.step_capped:
         oc.add('C04/ping-pong', 'step-cap', f"the run hit the scheduler's step cap at t={t_end:.1f}: the operators never settle")
     oc.probes['probe.update-after-nonessential-write'] = after_nonessential
